@@ -88,6 +88,15 @@ struct B {
 
 impl B {
     fn buf(&mut self, bytes: Vec<u8>, prefer: Option<Place>) -> BufId {
+        if !self.flush_bias {
+            // only the C05 profile puts buffers flush against unmapped pages:
+            // elsewhere a trap caused by an over-read would be reported under
+            // a property (iterator order, cost, ...) that still holds
+            let place = Place::Mid(self.rng.below(64) as u8);
+            let _ = prefer;
+            self.bufs.push(Buf { bytes, place });
+            return self.bufs.len() - 1;
+        }
         let place = match prefer {
             Some(p) if self.rng.chance(3, 4) => p,
             _ => {
